@@ -48,9 +48,10 @@ def run(tier, seed):
         for ma, mb in mags:
             a, b = "(%s %s)" % (ma, c["q"]), "(%s %s)" % (mb, c["t"])
             cc = "(5 %s)" % c["r"]
-            exprs = ["%s + %s" % (a, b), "%s + %s" % (b, a), "%s - %s" % (a, b), "%s - %s" % (b, a), a, b]
+            # one list expression per row (one interpret instead of six); the raw list elements are unsimplified
+            exprs = ["[%s + %s, %s + %s, %s - %s, %s - %s, %s, %s]" % (a, b, b, a, a, b, b, a, a, b)]
             if (ma, mb) == mags[0]:
-                exprs += [" + ".join(p) for p in itertools.permutations([a, b, cc])]
+                exprs.append("[" + ", ".join(" + ".join(p) for p in itertools.permutations([a, b, cc])) + "]")
             rows.append({"id": len(rows), "exprs": exprs})
             meta.append((c, ma, mb))
     inp, out = os.path.join(d, "cases.ndjson"), os.path.join(d, "out.ndjson")
@@ -65,7 +66,7 @@ def run(tier, seed):
             rep.violation({"kind": "evaluation-failed", "pair": [c["q"], c["t"]], "magnitudes": [ma, mb],
                            "outcomes": [x["outcome"] + ":" + x.get("msg", "")[:80] for x in o if x["outcome"] != "ok"][:2]})
             continue
-        ab, ba, amb, bma, qa, qb = [x["raw"] for x in o[:6]]
+        ab, ba, amb, bma, qa, qb = o[0]["raw"]["elems"]
         both_zero = float(qa["value"]) == 0.0 and float(qb["value"]) == 0.0
         same_size = float(qa["base_factor"]) == float(qb["base_factor"])
         scale = max(abs(base_mag(qa)), abs(base_mag(qb)), 1e-300)
@@ -77,12 +78,12 @@ def run(tier, seed):
               "antisym": unit_key(amb["unit"]) == unit_key(bma["unit"]) and float(amb["value"]) == -float(bma["value"])}
         events.append(ev)
         origin.append((c, ma, mb, [ab["text"], ba["text"], amb["text"], bma["text"]]))
-        if len(o) > 6:   # three operands, six orders: same denotation
-            vals = [base_mag(x["raw"]) for x in o[6:]]
+        if len(o) > 1:   # three operands, six orders: same denotation
+            vals = [base_mag(x) for x in o[1]["raw"]["elems"]]
             scale3 = max(abs(v) for v in vals + [scale])
             ev3 = {"ev": "add", "den": max(vals) - min(vals) <= 1e-9 * scale3, "exempt": True, "sameunit": True, "samevalue": True, "antisym": True}
             events.append(ev3)
-            origin.append((c, ma, mb, [x["raw"]["text"] for x in o[6:]]))
+            origin.append((c, ma, mb, [x["text"] for x in o[1]["raw"]["elems"]]))
     chunks = [events[i:i + 4000] for i in range(0, len(events), 4000)]
     paths = []
     for i, ch in enumerate(chunks):
